@@ -27,6 +27,7 @@ type Env struct {
 	pkg   *types.Package
 	at    token.Pos
 	bound int    // number of enclosing binders (no emission of definitions allowed when > 0)
+	abs   *absIdx // innermost quantifier translated over absolute backing-array positions
 	where string // for error messages
 }
 
@@ -480,6 +481,18 @@ func (env *Env) eval(e CExpr) Val {
 			}
 		}
 		inner.vars[x.Var] = Val{E: v, S: srt, T: t}
+		if x.Lo != nil {
+			if sx := soleIndexedSlice(x.Body, x.Var); sx != nil {
+				if sv := env.eval(sx); sv.S == sSlice {
+					// quantify over absolute positions of the backing array
+					off := "(s_off " + sv.E + ")"
+					lo, hi := env.evalInt(x.Lo), env.evalInt(x.Hi)
+					guard = fmt.Sprintf("(and (<= %s %s) (< %s %s))", add(off, lo), v, v, add(off, hi))
+					inner.abs = &absIdx{varName: x.Var, sliceE: sv.E, abs: v}
+					inner.vars[x.Var] = Val{E: "(- " + v + " " + off + ")", S: sInt, T: types.Typ[types.Int]}
+				}
+			}
+		}
 		body := inner.evalBool(x.Body)
 		em.usesQuant = true
 		if x.Forall {
@@ -489,6 +502,12 @@ func (env *Env) eval(e CExpr) Val {
 	case *CIndex:
 		a := env.eval(x.X)
 		switch {
+		case a.S == sSlice && env.abs != nil && a.E == env.abs.sliceE && isIdentNamed(x.I, env.abs.varName):
+			sl := a.T.Underlying().(*types.Slice)
+			hn := elemHeapName(sl.Elem())
+			hs := "(Array Int (Array Int " + em.sortOf(sl.Elem()) + "))"
+			h := em.heapGet(env.st, hn, hs)
+			return Val{E: fmt.Sprintf("(select (select %s (s_arr %s)) %s)", h, a.E, env.abs.abs), S: em.sortOf(sl.Elem()), T: sl.Elem()}
 		case a.S == sStr || a.S == "VStr" || a.S == sSlice:
 			i := env.evalInt(x.I)
 			var et types.Type = types.Typ[types.Uint8]
@@ -608,7 +627,10 @@ func (env *Env) call(x *CCall) Val {
 					if v.S == "nil" {
 						return Val{E: em.zero(tn.Type()).E, S: em.sortOf(tn.Type()), T: tn.Type()}
 					}
-					v.T = tn.Type()
+					if isInterface(tn.Type()) && v.S != sIface && v.T != nil {
+			return env.ex.makeIface(v, v.T, tn.Type())
+		}
+		v.T = tn.Type()
 					return v
 				}
 				if sf, ok := env.ex.eng.CS.Specs[pkg.Path()+"."+f.Name]; ok {
@@ -738,6 +760,9 @@ func (env *Env) call(x *CCall) Val {
 		v := env.eval(x.Args[0])
 		if v.S == "nil" {
 			return Val{E: em.zero(tn.Type()).E, S: em.sortOf(tn.Type()), T: tn.Type()}
+		}
+		if isInterface(tn.Type()) && v.S != sIface && v.T != nil {
+			return env.ex.makeIface(v, v.T, tn.Type())
 		}
 		v.T = tn.Type()
 		return v
